@@ -463,7 +463,8 @@ func runC09N6(c *Ctx) {
 	r.Clause("C09-N6", "index clamps in the collection commands leave no gap between the test and the clamped value")
 	n := 0
 	for _, fn := range c.P.Funcs() {
-		if load.ShortPkg(fn.Pkg.PkgPath) != "rockredis" || fn.Decl.Body == nil || strings.HasSuffix(c.P.Fset.Position(fn.Decl.Pos()).Filename, "_test.go") {
+		// quick: the collection commands (package rockredis); thorough: every package of the module
+		if (c.Tier != "thorough" && load.ShortPkg(fn.Pkg.PkgPath) != "rockredis") || fn.Decl.Body == nil || strings.HasSuffix(c.P.Fset.Position(fn.Decl.Pos()).Filename, "_test.go") {
 			continue
 		}
 		var ifs []*ast.IfStmt
